@@ -138,6 +138,7 @@ type push struct {
 	retSeq   uint64
 	children []string // sorted cluster names (without the "cluster:" prefix)
 	resolved []string // sorted: clusters whose resource data is in the XDSConfig attribute
+	refs     []string // sorted: clusters the routes of the config selector's virtual host name
 	raw      string
 	cs       iresolver.ConfigSelector
 	hasSC    bool
@@ -235,8 +236,20 @@ func (c *fakeCC) UpdateState(st resolver.State) error {
 			}
 		}
 		sort.Strings(p.resolved)
+		if xc.VirtualHost != nil {
+			seen := map[string]bool{}
+			for _, rt := range xc.VirtualHost.Routes {
+				for _, wc := range rt.WeightedClusters {
+					if !seen[wc.Name] {
+						seen[wc.Name] = true
+						p.refs = append(p.refs, wc.Name)
+					}
+				}
+			}
+			sort.Strings(p.refs)
+		}
 	}
-	e.Logf("push %d: clusters=%v selector=%v cluster-resources=%v", p.idx, p.children, p.cs != nil, p.resolved)
+	e.Logf("push %d: clusters=%v selector=%v routes-name=%v cluster-resources=%v", p.idx, p.children, p.cs != nil, p.refs, p.resolved)
 	p.seq = e.Seq
 	w.pushes = append(w.pushes, p)
 	// What the channel does with it: swap the config selector, waiting for
@@ -482,6 +495,58 @@ func clustersOf(m map[string]bool) []string {
 	return out
 }
 
+// revivedDead is the classifier of the known open finding "dead clusterInfo
+// revived" (known_findings.json, oracles dead_clusterinfo_revived_*).
+//
+// Mechanism in the resolver: an entry of activeClusters whose count reached 0
+// has released its dependency-manager subscription for good (sync.OnceFunc)
+// but stays in the map until the next prune; prune runs AFTER the next config
+// selector is built, and building it takes the entry again (0 -> 1). From
+// then on the entry is referenced but has no subscription, until a prune
+// removes it.
+//
+// What the harness can see of this, push by push (every push is one
+// xdsResolver.Update here): the entry of x exists over a run of consecutive
+// pushes that all list x. It was revived at push j iff
+//   - push j-1 lists x (the entry existed) but its config selector's routes do
+//     not name x (so no selector held it after the one before was stopped),
+//   - push j's routes name x (the new selector took the entry), and
+//   - no RPC routed to x held it over the construction of selector j: every
+//     such RPC selected before push j had begun its commit before push j
+//     (an RPC that began its commit between the construction of the selector
+//     and the push itself cannot be ordered by the harness and counts as not
+//     holding: the only imprecision, towards "revived").
+//
+// The state lasts while every following push lists x. A violation about x at
+// push i is attributed to the finding iff x is in that state at push i.
+func (w *world) revivedDead(x string, upto int) bool {
+	z := false
+	for j := 0; j <= upto && j < len(w.pushes); j++ {
+		p := w.pushes[j]
+		if !p.has(x) {
+			z = false
+			continue
+		}
+		if j == 0 {
+			continue
+		}
+		q := w.pushes[j-1]
+		if !q.has(x) || contains(q.refs, x) || !contains(p.refs, x) {
+			continue
+		}
+		held := false
+		for _, rec := range w.rpcs {
+			if rec.cfg != nil && rec.cluster == x && rec.retSeq < p.seq && (rec.commitSeq == 0 || rec.commitSeq > p.seq) {
+				held = true
+			}
+		}
+		if !held {
+			z = true
+		}
+	}
+	return z
+}
+
 // checkDropped (clause 3, judged at quiescence only): a cluster in the latest
 // service config is referenced by the current route configuration or by an RPC
 // that is selected and not yet committed.
@@ -507,7 +572,11 @@ func (w *world) checkDropped(when string) {
 			e.Probe("removed_cluster_kept_for_rpc_at_quiescence")
 			continue
 		}
-		e.Violate("removed_cluster_dropped", "%s: the latest service config (push %d) still contains cluster %s; the current route configuration (v%d %s) references only %v and no uncommitted RPC is routed to it", when, last.idx, c, cur.id, describeRC(cur.spec), clustersOf(want))
+		name := "removed_cluster_dropped"
+		if w.revivedDead(c, last.idx) {
+			name = "dead_clusterinfo_revived_cluster_not_dropped"
+		}
+		e.Violate(name, "%s: the latest service config (push %d) still contains cluster %s; the current route configuration (v%d %s) references only %v and no uncommitted RPC is routed to it", when, last.idx, c, cur.id, describeRC(cur.spec), clustersOf(want))
 	}
 }
 
@@ -574,7 +643,11 @@ func (w *world) checkHistory() {
 			}
 			if !contains(p.resolved, x) && !noRes[rec.id] {
 				noRes[rec.id] = true
-				e.Violate("cluster_resource_kept_until_commit", "rpc %d routed to %s (selected at seq %d on push %d, uncommitted): push %d (seq %d) keeps %s in the service config but the xDS configuration handed to the channel with it has cluster resources only for %v (the cluster's watch was dropped)", rec.id, x, rec.retSeq, rec.push.idx, p.idx, p.seq, x, p.resolved)
+				name := "cluster_resource_kept_until_commit"
+				if w.revivedDead(x, p.idx) {
+					name = "dead_clusterinfo_revived_resource_dropped"
+				}
+				e.Violate(name, "rpc %d routed to %s (selected at seq %d on push %d, uncommitted): push %d (seq %d) keeps %s in the service config but the xDS configuration handed to the channel with it has cluster resources only for %v (the cluster's watch was dropped)", rec.id, x, rec.retSeq, rec.push.idx, p.idx, p.seq, x, p.resolved)
 			}
 			if p.idx > rec.push.idx {
 				// was x gone from the route configuration the client knew?
